@@ -370,6 +370,7 @@ class EnumV(V):
 
     src: V
     grouped: bool = False
+    start: "int | None" = 0  # enumerate(xs, start); None: not a constant
 
 
 @dataclass(eq=False)
@@ -536,6 +537,7 @@ class _Mapped:
 
     fn: "V | str | None"
     inner: "V | _Mapped | None"
+    index: "int | None" = None  # enumerate over a sequence whose elements are all known: the position
 
 
 # --------------------------------------------------------------------------- the interpreter
@@ -1094,7 +1096,10 @@ class Interp:
                 runs.append((_Mapped(src.fn, value), g, lp, ckey))
             return runs
         if isinstance(src, EnumV):
-            return [(_Mapped("groupby" if src.grouped else None, value), g, lp, ckey) for value, g, lp, ckey in self.iteration_plan(fr, src.src, node)]
+            inner = self.iteration_plan(fr, src.src, node)
+            # (concrete runs) a sequence written out element by element under one condition: the positions are known
+            exact = self.concrete and not src.grouped and src.start is not None and bool(inner) and all(lp is None and ckey is None and g == inner[0][1] for _v, g, lp, ckey in inner) and self._sequence_items(src.src) is not None
+            return [(_Mapped("groupby" if src.grouped else None, value, (src.start + i) if exact else None), g, lp, ckey) for i, (value, g, lp, ckey) in enumerate(inner)]
         if isinstance(src, DictCompV):
             gen = src.node.generators[0]
             saved_env = src.fr.env
@@ -1265,7 +1270,7 @@ class Interp:
             if value.fn == "groupby":
                 return TupleV([inner, Unknown(f"group@{getattr(node, 'lineno', 0)}", maybe_none=False)])
             if value.fn is None:  # enumerate
-                idx = Unknown(f"index@{getattr(node, 'lineno', 0)}", maybe_none=False)
+                idx = Unknown(f"index@{getattr(node, 'lineno', 0)}", maybe_none=False) if value.index is None else Const(value.index)
                 idx._elem = inner  # type: ignore[attr-defined]
                 return TupleV([idx, inner])
             if isinstance(value.fn, DictCompV):
@@ -1732,6 +1737,23 @@ class Interp:
                 self.loops = saved
                 self.frames.pop()
 
+    @staticmethod
+    def _sequence_items(v: V) -> "tuple[list, Formula] | None":
+        """The elements of a sequence that was written out element by element (`[*parents, name]`) under one and the same condition,
+        in order, with that condition; None when some part is not a literal item, is only partially known, or parts differ in
+        their conditions (then positions are not known)."""
+        if isinstance(v, TupleV):
+            return list(v.items), TRUE
+        if not isinstance(v, Coll) or not v.parts or v.removals or v.keyed:
+            return None
+        g0 = v.parts[0].guard
+        items: list = []
+        for p in v.parts:
+            if p.kind != "lit" or p.partial or p.guard != g0:
+                return None
+            items += list(p.items)
+        return items, g0
+
     def copy_of(self, v: V, label: str = "") -> Coll:
         c = self.as_coll(v)
         return Coll(list(c.parts), list(c.removals), label or c.label)
@@ -1763,6 +1785,10 @@ class Interp:
         alts = []
         drawn = self._drawn_from(v) if isinstance(v, Elem) else set()
         for p in c.parts:
+            if p.partial and self.concrete:
+                # a part the model only knows partially (a slice, a loop left by break): whether the value is in it is an open fact
+                alts.append(conj([p.guard, self.free(f"IN[{k},{p.what or p.kind}@{getattr(p.node, 'lineno', 0)}]", frozenset({"GAP"}))]))
+                continue
             if p.kind == "base" and p.base in drawn:
                 alts.append(p.guard)  # the element is taken from this very collection
             elif p.kind == "base":
@@ -1791,6 +1817,12 @@ class Interp:
                         continue
                     if it is v:
                         alts.append(p.guard)
+                        continue
+                    cv_, ci_ = conc(v), conc(it)
+                    if cv_ is not _NOCONC and ci_ is not _NOCONC:
+                        # two constants (tuples of constants): equal or not, no open fact
+                        if cv_ == ci_:
+                            alts.append(p.guard)
                         continue
                     alts.append(conj([p.guard, self.free("EQ[" + ",".join(sorted([k, key(it)])) + "]", self.cmp_taint(v, it))]))
         return disj(alts)
@@ -2195,6 +2227,25 @@ class Interp:
                     if k_ == key(sl):
                         return val  # what was stored under this very key (memo table)
                 return Unknown(f"{key(v)}[{key(sl)}]", self.value_taint(v) | taint_of(sl) | {"GAP"})
+            if isinstance(v, Coll) and self.concrete and not v.keyed:
+                # (concrete runs) a list written out element by element under one condition: slices and indices are exact
+                seq = self._sequence_items(v)
+                if seq is not None:
+                    items, g_seq = seq
+                    try:
+                        if isinstance(e.slice, ast.Slice):
+                            bounds = [None if b is None else conc(self.ev(fr, b)) for b in (e.slice.lower, e.slice.upper, e.slice.step)]
+                            if all(b is None or (isinstance(b, int) and not isinstance(b, bool)) for b in bounds):
+                                out = Coll(label=v.label)
+                                for it_ in items[slice(*bounds)]:
+                                    out.parts.append(Part("lit", g_seq, items=(it_,), fi=fr.fi, node=e))
+                                return out
+                        else:
+                            ci = conc(self.ev(fr, e.slice))
+                            if isinstance(ci, int) and not isinstance(ci, bool):
+                                return items[ci]
+                    except IndexError:
+                        return Unknown(f"{key(v)}[..]", frozenset({"GAP"}))
             if isinstance(v, Coll):
                 if isinstance(e.slice, ast.Slice):
                     c = self.copy_of(v)
@@ -2503,6 +2554,11 @@ class Interp:
             if isinstance(f.recv, AltV):
                 return self.distribute(f.recv, lambda x: self.call_method(fr, x, f.attr, args, kwargs, e))
             return self.call_method(fr, f.recv, f.attr, args, kwargs, e)
+        if isinstance(f, Obj):
+            # a callable object of the pipeline (`InternalModuleMatcher(prefix)(module)`): its `__call__` is an ordinary method
+            m = self.repo.lookup_method(f.cls, "__call__")
+            if m is not None and self.transparent_func(m):
+                return self.call_fn(fr, Fn(m, f), args, kwargs, e)
         t = self._taints(args, kwargs) | taint_of(f) | {"GAP"}
         return Unknown(f"{key(f)}(..)", t)
 
@@ -2672,7 +2728,8 @@ class Interp:
         if name == "map" and len(args) == 2:
             return MapV(args[0], args[1])
         if name == "enumerate" and args:
-            return EnumV(args[0])
+            st = args[1] if len(args) > 1 else kwargs.get("start", Const(0))
+            return EnumV(args[0], start=st.value if isinstance(st, Const) and isinstance(st.value, int) and not isinstance(st.value, bool) else None)
         if name in ("itertools.groupby", "groupby") and len(args) == 1 and not kwargs:
             return EnumV(args[0], grouped=True)
         if name in ("dict", "collections.OrderedDict", "OrderedDict") and not args and not kwargs:
